@@ -343,6 +343,14 @@ func cmdCheck(args []string) {
 			if f := strings.Fields(a.Text); len(f) > 0 && strings.HasPrefix(f[0], "C") && len(f[0]) == 3 && f[0] != prop {
 				continue
 			}
+			if strings.HasPrefix(a.Kind, "typeinv:") {
+				how := "assumed whenever such an object is read; NOT proved where objects are built or updated"
+				if a.Checked {
+					how = "assumed whenever such an object is read; proved at every composite literal in verified functions (typeinvnew)"
+				}
+				assumptions = append(assumptions, "object invariant of "+strings.TrimPrefix(a.Kind, "typeinv:")+": "+a.Text+" ("+how+")")
+				continue
+			}
 			assumptions = append(assumptions, "axiom (package globals): "+a.Text)
 		}
 	}
